@@ -409,6 +409,103 @@ def i_unhexlify(x):
 _STRUCT_BE = {">I": 4, ">H": 2, ">B": 1, "B": 1, ">Q": 8, "!I": 4, "!H": 2}
 
 
+@intrinsic(int.from_bytes)
+def i_from_bytes(data, byteorder="big", *, signed=False):
+    if isinstance(data, SymSeq):
+        if signed:
+            raise Unsupported("int.from_bytes(signed=True) of symbolic bytes")
+        es = data._elems("int.from_bytes")
+        if byteorder == "little":
+            es = es[::-1]
+        elif byteorder != "big":
+            raise ValueError("byteorder must be either 'little' or 'big'")
+        v = 0
+        for b in es:
+            v = v * 256 + b
+        return v
+    return NotImplemented
+
+
+def symint_to_bytes(x, length=1, byteorder="big", *, signed=False):
+    """int.to_bytes on a symbolic integer"""
+    if signed:
+        raise Unsupported("to_bytes(signed=True) of a symbolic integer")
+    C = core.CTX
+    if C.branch(z3.Or(toint(x) < 0, toint(x) >= (1 << (8 * length)))):
+        raise OverflowError("int too big to convert" if not C.branch(toint(x) < 0) else "can't convert negative int to unsigned")
+    out = [(x >> (8 * (length - 1 - i))) & 255 for i in range(length)]
+    if byteorder == "little":
+        out = out[::-1]
+    elif byteorder != "big":
+        raise ValueError("byteorder must be either 'little' or 'big'")
+    return SymSeq(out, "bytes")
+
+
+SymInt.to_bytes = symint_to_bytes
+
+
+@intrinsic(bytes.fromhex, bytearray.fromhex)
+def i_fromhex(x):
+    if isinstance(x, SymStr):
+        cs = [c for c in x.chars]
+        if any(isinstance(c, str) and c.isspace() for c in cs):
+            cs = [c for c in cs if not (isinstance(c, str) and c.isspace())]
+        try:
+            return i_unhexlify(SymStr(cs))
+        except binascii.Error as e:
+            raise ValueError("non-hexadecimal number found in fromhex() arg")
+    return NotImplemented
+
+
+@intrinsic(sum)
+def i_sum(it, start=0):
+    it = list(it)
+    if _anysym(it) or isinstance(start, Sym):
+        v = start
+        for x in it:
+            v = v + x
+        return v
+    return NotImplemented
+
+
+@intrinsic(any)
+def i_any(it):
+    it = list(it)
+    if _anysym(it):
+        for x in it:
+            if bool(x):
+                return True
+        return False
+    return any(it)
+
+
+@intrinsic(all)
+def i_all(it):
+    it = list(it)
+    if _anysym(it):
+        for x in it:
+            if not bool(x):
+                return False
+        return True
+    return all(it)
+
+
+@intrinsic(abs)
+def i_abs(x):
+    if isinstance(x, SymInt):
+        return core.ite(x >= 0, x, -x)
+    return NotImplemented
+
+
+@intrinsic(reversed)
+def i_reversed(x):
+    if isinstance(x, SymSeq):
+        return x.__reversed__()
+    if isinstance(x, SymStr):
+        return iter(x.chars[::-1])
+    return NotImplemented
+
+
 @intrinsic(divmod)
 def i_divmod(a, b):
     if _anysym((a, b)):
